@@ -73,10 +73,28 @@ def explore(ctx, Sim, roots, max_depth, max_states=None, label=""):
     depth_done = 0
     nontriv = 0
     capped = False
+    import gc
+
+    gc.collect()
+    ctx.pool_begin()
+    try:
+        return _levels(ctx, Sim, seen, frontier, max_depth, max_states, label, transitions, traces)
+    finally:
+        ctx.pool_end()
+
+
+def _levels(ctx, Sim, seen, frontier, max_depth, max_states, label, transitions, traces):
+    depth_done = 0
+    nontriv = 0
+    capped = False
     for depth in range(1, max_depth + 1):
         if not frontier:
             break
+        import os, time
+        _t = time.perf_counter()
         res = ctx.pmap(_expand, frontier)
+        if os.environ.get("VERIF_DEBUG"):
+            print(f"[bfs {label}] depth={depth} frontier={len(frontier)} seen={len(seen)} {time.perf_counter() - _t:.1f}s", flush=True)
         nxt = []
         for (hist, _k), children in zip(frontier, res):
             if isinstance(children, tuple) and children and children[0] == "DIVERGED":
